@@ -1075,19 +1075,55 @@ Definition rt_of_v (v : vres) : option (list ustring) :=
   match v with VExpr _ r => r | _ => None end.
 
 (* visitComparisonExpression *)
-(* children[0].operands.append(children[2])  --  or, repaired, add_operand: root_types updated *)
-Definition append_operand (g : cfg) (isand : bool) (ops : list aexpr) (rt : option (list ustring)) (b : vres) : result vres :=
+(* x.root_types of a model object (None: the object has no such attribute) *)
+Fixpoint expr_rt (e : aexpr) : option (list ustring) :=
+  match e with
+  | ECmp _ lhs _ _ => Some [ap_type lhs]
+  | EParen x => expr_rt x
+  | EBool isand ops =>
+      (fix go (acc : option (list ustring)) (l : list aexpr) : option (list ustring) :=
+         match l with
+         | [] => acc
+         | x :: r =>
+             match expr_rt x with
+             | Some t => go (Some (match acc with
+                                   | None => t
+                                   | Some a => if isand then set_inter a t else set_union a t
+                                   end)) r
+             | None => None
+             end
+         end) None ops
+  | _ => None
+  end.
+
+(* _BooleanExpression.__init__ on a list of model objects *)
+Fixpoint bool_rts_e (isand : bool) (acc : option (list ustring)) (ops : list aexpr) : result (list ustring) :=
+  match ops with
+  | [] => match acc with Some r => Ok r | None => Raise AttributeError end
+  | e :: rest =>
+      match expr_rt e with
+      | Some r =>
+          let acc' := match acc with
+                      | None => r
+                      | Some a => if isand then set_inter a r else set_union a r
+                      end in
+          match acc' with
+          | [] => Raise ValueError
+          | _ => bool_rts_e isand (Some acc') rest
+          end
+      | None => Raise AttributeError
+      end
+  end.
+
+(* pinned:    children[0].operands.append(children[2]); return children[0]
+   repaired:  return instantiate("<newop>BooleanExpression", children[0].operands + [children[2]])
+              -- the node is rebuilt, root_types computed from all operands *)
+Definition append_operand (g : cfg) (newop : bool) (isand : bool) (ops : list aexpr) (rt : option (list ustring)) (b : vres) : result vres :=
+  y <- expr_of b ;;
   if rt_append g then
-    match rt, rt_of_v b with
-    | Some r, Some r' =>
-        let r'' := if isand then set_inter r r' else set_union r r' in
-        match r'' with
-        | [] => Raise ValueError
-        | _ => y <- expr_of b ;; Ok (VExpr (EBool isand (ops ++ [y])) (Some r''))
-        end
-    | _, _ => Raise AttributeError
-    end
-  else y <- expr_of b ;; Ok (VExpr (EBool isand (ops ++ [y])) rt).
+    r <- bool_rts_e newop None (ops ++ [y]) ;;
+    Ok (VExpr (EBool newop (ops ++ [y])) (Some r))
+  else Ok (VExpr (EBool isand (ops ++ [y])) rt).
 
 Definition m_cmp_or (g : cfg) (cs : list vres) : result vres :=
   if Nat.eqb (List.length cs) 1 then child cs 0
@@ -1097,7 +1133,7 @@ Definition m_cmp_or (g : cfg) (cs : list vres) : result vres :=
     | VExpr (EBool isand ops) rt =>
         t <- as_tok o ;;
         if ustr_eqb (tx (if isand then t_AND else t_OR)) (tx t)
-        then append_operand g isand ops rt b
+        then append_operand g false isand ops rt b
         else mk_bool false [a; b]
     | _ => mk_bool false [a; b]
     end.
@@ -1108,7 +1144,7 @@ Definition m_cmp_and (g : cfg) (cs : list vres) : result vres :=
   else
     a <- child cs 0 ;; b <- child cs 2 ;;
     match a with
-    | VExpr (EBool isand ops) rt => append_operand g isand ops rt b
+    | VExpr (EBool isand ops) rt => append_operand g true isand ops rt b
     | _ => mk_bool true [a; b]
     end.
 
